@@ -93,6 +93,8 @@ class BackgroundTimePDF(
         """
         times = tdm.get_data('time')
 
+        self._ensure_S_is_up_to_date()
+
         self._pd = np.zeros((len(times),), dtype=np.float64)
 
         # Get a mask of the event times which fall inside a detector on-time
@@ -138,9 +140,10 @@ class BackgroundTimePDF(
             The background PDF does not depend on any global fit parameter,
             hence, this is an empty dictionary.
         """
-        if self._pd is None:
+        if (self._pd is None) or (not self._is_S_up_to_date()):
             raise RuntimeError(
-                f'The {classname(self)} was not initialized with trial data!')
+                f'The {classname(self)} was not initialized with trial data '
+                'for its current live-time and time flux profile!')
 
         grads = dict()
 
